@@ -37,12 +37,12 @@ pub struct Model {
     pub records: BTreeMap<Tid, Rec>,
 }
 
-fn states(sc: &Scenario, case: &Case, t: &Tid) -> (ResState, ResState) {
+pub fn states(sc: &Scenario, case: &Case, t: &Tid) -> (ResState, ResState) {
     let (i, o) = model::declared(sc, &case.root, t);
     (model::res_state(&i, &case.vars_dir()), model::res_state(&o, &case.vars_dir()))
 }
 
-fn build_targets(sc: &Scenario) -> Vec<Tid> {
+pub fn build_targets(sc: &Scenario) -> Vec<Tid> {
     sc.all_targets().into_iter().filter(|t| model::kind_of(sc, t) == Some(Kind::Build)).collect()
 }
 
@@ -142,7 +142,7 @@ fn describe_diff(rec: &ResState, cur: &ResState) -> String {
     parts.join(",")
 }
 
-fn state_file(sc: &Scenario, case: &Case, t: &Tid) -> PathBuf {
+pub fn state_file(sc: &Scenario, case: &Case, t: &Tid) -> PathBuf {
     case.project_dir(sc, t.0).join(".zinoma").join(format!("{}.checksums", sc.display(t.0, &t.1)))
 }
 
@@ -470,7 +470,8 @@ pub fn gen_edit(rng: &mut Rng, sc: &Scenario, n: u64) -> Option<Step> {
         return None;
     }
     let (path, _is_out) = rng.pick(&files).clone();
-    let op = match rng.weighted(&[30, 8, 12, 10, 10, 10, 10, 10]) {
+    let op = match rng.weighted(&[30, 8, 12, 10, 10, 10, 10, 10, 8]) {
+        8 => FsOp::WriteOlder { path, content: format!("older revision #{}\n", n) },
         0 => FsOp::Write { path, content: format!("edited #{}\n", n) },
         1 => FsOp::Append { path, content: format!("+{}", n) },
         2 => FsOp::Touch { path },
@@ -511,7 +512,7 @@ pub fn gen_tail_edit(rng: &mut Rng, sc: &Scenario) -> Option<Step> {
     None
 }
 
-fn plain_invocation(rng: &mut Rng, sc: &Scenario, entry: usize, args: Vec<String>) -> Invocation {
+pub fn plain_invocation(rng: &mut Rng, sc: &Scenario, entry: usize, args: Vec<String>) -> Invocation {
     let n: usize = sc.projects.iter().map(|p| p.targets.len()).sum();
     let mut plan = gen::gen_plan(rng, 80 + 60 * n as u64);
     let req = model::requested(sc, entry, &args);
@@ -631,7 +632,7 @@ fn harness_or(stats: &mut Stats, v: Option<Violation>) -> Option<Violation> {
 }
 
 pub fn all() -> Vec<Box<dyn Property>> {
-    vec![Box::new(C02), Box::new(C03), Box::new(C13), Box::new(C18)]
+    vec![Box::new(C02), Box::new(C03), Box::new(C13), Box::new(C18), Box::new(C12)]
 }
 
 // ------------------------------------------------------------------ C02
@@ -738,5 +739,292 @@ impl Property for C18 {
     }
 }
 
-#[allow(dead_code)]
-fn unused(_: BTreeSet<u8>) {}
+// ------------------------------------------------------------------ C12
+
+/// Paths (relative to the case root) that `--clean` must delete according to the statement, and
+/// the `.zinoma` regions in its scope.
+fn deletion_set(o: &InvObs) -> (BTreeSet<PathBuf>, Vec<PathBuf>, BTreeSet<PathBuf>) {
+    let sc = o.sc;
+    let req = model::requested(sc, o.inv.entry, &o.inv.args);
+    let mut del: BTreeSet<PathBuf> = BTreeSet::new();
+    let mut del_dirs: Vec<PathBuf> = vec![];
+    let mut state: BTreeSet<PathBuf> = BTreeSet::new();
+    if !o.inv.args.iter().any(|a| a == "--clean") {
+        return (del, del_dirs, state);
+    }
+    let scope: Vec<Tid> = if req.is_empty() {
+        let loaded = gen::loaded_projects(sc, o.inv.entry);
+        for &pi in &loaded {
+            state.insert(PathBuf::from(&sc.projects[pi].dir).join(".zinoma"));
+        }
+        sc.all_targets().into_iter().filter(|t| loaded.contains(&t.0)).collect()
+    } else {
+        let clo = model::closure(sc, &req);
+        for t in &clo {
+            state.insert(PathBuf::from(&sc.projects[t.0].dir).join(".zinoma").join(format!("{}.checksums", sc.display(t.0, &t.1))));
+        }
+        clo.into_iter().collect()
+    };
+    let root = &o.case.root;
+    for t in &scope {
+        let tt = match sc.target(t.0, &t.1) {
+            Some(x) if x.kind == Kind::Build => x,
+            _ => continue,
+        };
+        let pdir = root.join(&sc.projects[t.0].dir);
+        for r in &tt.output {
+            if let Res::Paths { paths, extensions } = r {
+                let filtered = extensions.as_ref().map(|e| e.iter().any(|x| !x.is_empty())).unwrap_or(false);
+                if filtered {
+                    // only the matching files beneath; computed on the tree as it was before
+                    for (rel, e) in o.before_tree.iter() {
+                        let abs = root.join(rel);
+                        let is_file = matches!(e, Entry::File(..)) || matches!(e, Entry::Symlink(_) if std::fs::metadata(&abs).map(|m| m.is_file()).unwrap_or(false) || o.after_tree.get(rel).is_none());
+                        let _ = is_file;
+                    }
+                    let one = [Res::Paths { paths: paths.clone(), extensions: extensions.clone() }];
+                    // denote() on the *current* tree would miss what was deleted: use `before`
+                    for f in denote_in_snapshot(&one, &pdir, root, o.before_tree) {
+                        del.insert(f);
+                    }
+                } else {
+                    for p in paths {
+                        let rel = PathBuf::from(&sc.projects[t.0].dir).join(p);
+                        match o.before_tree.get(&rel) {
+                            Some(Entry::File(..)) => {
+                                del.insert(rel);
+                            }
+                            Some(Entry::Dir) => {
+                                del_dirs.push(rel.clone());
+                                del.insert(rel);
+                            }
+                            _ => {}
+                        }
+                    }
+                }
+            }
+        }
+    }
+    (del, del_dirs, state)
+}
+
+/// `model::denote` evaluated on a snapshot instead of the live tree.
+fn denote_in_snapshot(res: &[Res], pdir: &Path, root: &Path, snap: &BTreeMap<PathBuf, Entry>) -> Vec<PathBuf> {
+    let mut out = vec![];
+    for r in res {
+        if let Res::Paths { paths, extensions } = r {
+            let exts: Vec<String> = extensions.as_ref().map(|e| e.iter().filter(|x| !x.is_empty()).map(|x| if x.starts_with('.') { x.clone() } else { format!(".{}", x) }).collect()).unwrap_or_default();
+            for p in paths {
+                let base = pdir.join(p);
+                let base_rel = match base.strip_prefix(root) {
+                    Ok(b) => b.to_path_buf(),
+                    Err(_) => continue,
+                };
+                for (rel, e) in snap.iter() {
+                    if !(rel == &base_rel || rel.starts_with(&base_rel)) {
+                        continue;
+                    }
+                    // pruned: anything below a directory named .zinoma; below a symlinked directory
+                    let below = rel.strip_prefix(&base_rel).unwrap();
+                    if below.components().any(|c| c.as_os_str() == ".zinoma") {
+                        continue;
+                    }
+                    let mut through_link = false;
+                    let mut acc = base_rel.clone();
+                    let comps: Vec<_> = below.components().collect();
+                    for c in comps.iter().take(comps.len().saturating_sub(1)) {
+                        acc.push(c);
+                        if matches!(snap.get(&acc), Some(Entry::Symlink(_))) {
+                            through_link = true;
+                        }
+                    }
+                    if through_link {
+                        continue;
+                    }
+                    let is_file = match e {
+                        Entry::File(..) => true,
+                        Entry::Symlink(t) => {
+                            // a link to a regular file counts as a file (the link is what gets removed)
+                            let target = root.join(rel).parent().map(|d| d.join(t)).unwrap_or_default();
+                            let trel = normalise(&target).strip_prefix(root).map(|x| x.to_path_buf()).ok();
+                            match trel {
+                                Some(tr) => matches!(snap.get(&tr), Some(Entry::File(..))),
+                                None => std::fs::metadata(&target).map(|m| m.is_file()).unwrap_or(false),
+                            }
+                        }
+                        _ => false,
+                    };
+                    if !is_file {
+                        continue;
+                    }
+                    if !exts.is_empty() {
+                        let name = rel.file_name().map(|n| n.to_string_lossy().into_owned()).unwrap_or_default();
+                        if !exts.iter().any(|x| name.ends_with(x.as_str())) {
+                            continue;
+                        }
+                    }
+                    out.push(rel.clone());
+                }
+            }
+        }
+    }
+    out
+}
+
+fn normalise(p: &Path) -> PathBuf {
+    let mut out = PathBuf::new();
+    for c in p.components() {
+        match c {
+            std::path::Component::ParentDir => {
+                out.pop();
+            }
+            std::path::Component::CurDir => {}
+            other => out.push(other),
+        }
+    }
+    out
+}
+
+fn clean_oracle(o: &InvObs, _m: &Model) -> Option<Violation> {
+    if o.r.abnormal().is_some() {
+        return None;
+    }
+    let (del, del_dirs, state) = deletion_set(o);
+    let cleaning = o.inv.args.iter().any(|a| a == "--clean");
+    // files written by scripts in this invocation (and their parent directories)
+    let mut written: BTreeSet<PathBuf> = BTreeSet::new();
+    for p in &o.r.procs {
+        if let (Some((_, _, wrote)), Some(t)) = (&p.exit, super::oneshot::tid_of_sim_id(o.sc, &p.id)) {
+            for w in wrote {
+                let rel = PathBuf::from(&o.sc.projects[t.0].dir).join(w);
+                let mut anc = rel.parent();
+                while let Some(a) = anc {
+                    if a.as_os_str().is_empty() {
+                        break;
+                    }
+                    written.insert(a.to_path_buf());
+                    anc = a.parent();
+                }
+                written.insert(rel);
+            }
+        }
+    }
+    let in_zinoma = |rel: &Path| rel.components().any(|c| c.as_os_str() == ".zinoma") && !rel.components().take_while(|c| c.as_os_str() != ".zinoma").any(|c| c.as_os_str() == "src" || c.as_os_str() == "out");
+    let mut all: BTreeSet<&PathBuf> = o.before_tree.keys().collect();
+    all.extend(o.after_tree.keys());
+    for rel in all {
+        let b = o.before_tree.get(rel);
+        let a = o.after_tree.get(rel);
+        if in_zinoma(rel) {
+            // recorded state: must be gone (or rewritten) when in the cleaned scope
+            if cleaning {
+                let in_scope = state.iter().any(|s| rel == s || rel.starts_with(s));
+                if in_scope && b.is_some() && a == b && matches!(b, Some(Entry::File(..))) {
+                    return viol("state-survived-clean", format!("path={}", rel.display()), format!("--clean left the recorded state {} in place", rel.display()));
+                }
+                if !in_scope && b.is_some() && a.is_none() {
+                    return viol("state-outside-scope-deleted", format!("path={}", rel.display()), format!("--clean removed {} which belongs to a target outside the cleaned scope", rel.display()));
+                }
+            }
+            continue;
+        }
+        if written.contains(rel) {
+            continue;
+        }
+        let under_removed_dir = del_dirs.iter().any(|d| rel.starts_with(d));
+        let expected_absent = del.contains(rel) || under_removed_dir;
+        match (b, a, expected_absent) {
+            (Some(_), Some(_), true) => {
+                return viol("declared-output-not-deleted", format!("path={}", rel.display()), format!("--clean must delete {} (declared output) but it is still there", rel.display()));
+            }
+            (Some(x), None, false) => {
+                let what = match x {
+                    Entry::Symlink(_) => "symlink",
+                    Entry::Dir => "directory",
+                    _ => "file",
+                };
+                return viol("deleted-outside-declared-outputs", format!("kind={} path={}", what, rel.display()), format!("{} {} is neither a declared output (or a matching file beneath one) nor recorded state, but it disappeared", what, rel.display()));
+            }
+            (Some(x), Some(y), false) if x != y => {
+                return viol("modified-outside-script-effects", format!("path={}", rel.display()), format!("{} changed although no script that ran writes it", rel.display()));
+            }
+            (None, Some(_), _) => {
+                return viol("unexpected-new-entry", format!("path={}", rel.display()), format!("{} appeared although no script that ran writes it", rel.display()));
+            }
+            _ => {}
+        }
+    }
+    None
+}
+
+pub struct C12;
+impl Property for C12 {
+    fn id(&self) -> &'static str {
+        "C12"
+    }
+    fn cases(&self, tier: &str) -> u64 {
+        if tier == "quick" {
+            2_000
+        } else {
+            50_000
+        }
+    }
+    fn rule(&self) -> &'static str {
+        "one case = 1-3 projects whose output directories are decorated with files not matching the extension filter, nested directories and symbolic links (to files, to directories, dangling, pointing outside the output) + a history of invocations containing `--clean` alone, `--clean T...` and plain runs, with edits in between. Oracle after every invocation: recursive tree snapshot (names, types, link targets, contents, mtimes) after vs before equals the model's deletion set (declared output paths, or only the matching files beneath them; recorded state of the cleaned scope) plus the effects of the scripts that ran; targets in the cleaned scope are never skipped. distinct_nontrivial = distinct order hashes among --clean invocations that had something to delete"
+    }
+    fn assumptions(&self) -> Vec<&'static str> {
+        vec!["a declared output path that is itself a symbolic link is not generated (DESIGN.md §7 C12 workload boundary)"]
+    }
+    fn generate(&self, rng: &mut Rng, _case: u64) -> Scenario {
+        let mut sc = gen_history(rng, &HistOpts { io: IoOpts { multi_project_pct: 50, max_targets: 5, cmd_pct: 10 }, max_invocations: 4, edit_pct: 30, touch_only: false, vary_entry: false, clean_pct: 70, fail_pct: 0, corrupt_pct: 0 });
+        // decorate output locations
+        let mut extra = vec![];
+        for p in &sc.projects {
+            for t in &p.targets {
+                for r in &t.output {
+                    if let Res::Paths { paths, .. } = r {
+                        for path in paths {
+                            if path.ends_with(".out") {
+                                continue;
+                            }
+                            let d = format!("{}/{}", p.dir, path);
+                            if rng.chance(60) {
+                                extra.push(FileSpec { path: format!("{}/keep.txt", d), kind: FileKind::File("not an object file\n".into()) });
+                            }
+                            if rng.chance(50) {
+                                extra.push(FileSpec { path: format!("{}/old.o", d), kind: FileKind::File("stale object\n".into()) });
+                            }
+                            if rng.chance(40) {
+                                extra.push(FileSpec { path: format!("{}/nested/deeper/z.o", d), kind: FileKind::File("nested object\n".into()) });
+                            }
+                            if rng.chance(40) {
+                                // link to a file outside the output; its name may match the filter
+                                extra.push(FileSpec { path: format!("{}/outside.o", d), kind: FileKind::Symlink("../../precious.txt".into()) });
+                            }
+                            if rng.chance(35) {
+                                extra.push(FileSpec { path: format!("{}/dirlink", d), kind: FileKind::Symlink("../../precious_dir".into()) });
+                            }
+                            if rng.chance(25) {
+                                extra.push(FileSpec { path: format!("{}/dangling.o", d), kind: FileKind::Symlink("nowhere".into()) });
+                            }
+                        }
+                    }
+                }
+            }
+            extra.push(FileSpec { path: format!("{}/precious.txt", p.dir), kind: FileKind::File("must survive\n".into()) });
+            extra.push(FileSpec { path: format!("{}/precious_dir/inner.o", p.dir), kind: FileKind::File("must survive too\n".into()) });
+        }
+        sc.files.extend(extra);
+        // sometimes a --clean without targets at the end
+        if rng.chance(50) {
+            let mut inv = plain_invocation(rng, &sc, 0, vec!["--clean".into()]);
+            inv.plan.events.clear();
+            sc.steps.push(Step::Invoke(inv));
+        }
+        sc.label = format!("clean-{}", sc.label);
+        sc
+    }
+    fn evaluate(&self, sc: &Scenario, root: &Path, stats: &mut Stats) -> Option<Violation> {
+        eval_history(sc, root, stats, Some(Which::Sound), any_target, Some(clean_oracle), |_sc, c, _| c.inv.args.iter().any(|a| a == "--clean"))
+    }
+}
